@@ -79,6 +79,25 @@ package vals
 //@   ensures istype(rawIndex, string) && isslice(rawIndex.(string)) && partsok(rawIndex.(string)) && highraw(rawIndex.(string), n) < MaxInt ==> (err == nil) == (-n <= lowval(rawIndex.(string)) && lowval(rawIndex.(string)) <= n && -n <= highval(rawIndex.(string), n) && highval(rawIndex.(string), n) <= n && adj(lowval(rawIndex.(string)), n) <= adj(highval(rawIndex.(string), n), n))
 //@   ensures istype(rawIndex, string) && isslice(rawIndex.(string)) && !partsok(rawIndex.(string)) ==> err != nil
 
+// ---------------------------------------------------------------------------
+// C08: values that are eq are the same map key (equal values hash equally).
+// The harness verifEqHash (zz_verif_harness.go) calls the real Equal and Hash,
+// which are inlined into it arm by arm.
+
+//@ func Equal
+//@   inline
+//@ func Hash
+//@   inline
+
+//@ func verifEqHash
+//@   props C08
+//@   pure
+//@   nosafety
+//@   ensures [bool] istype(x, bool) && eq ==> hx == hy
+//@   ensures [int] istype(x, int) && eq ==> hx == hy
+//@   ensures [float64] istype(x, float64) && eq ==> hx == hy
+//@   ensures [string] istype(x, string) && eq ==> hx == hy
+
 // "invalid" = the decoder reports an encoding error at byte offset i of s.
 //@ spec fn invalidat(s string, i int) bool = runeat(s, i) == RuneError && sizeat(s, i) == 1
 //@ spec fn invalidbefore(s string, i int) bool = lastrune(s, i) == RuneError && lastsize(s, i) == 1
